@@ -153,5 +153,7 @@ pub fn run(tier: &str, seed: u64) -> Sink {
     }
     sink.s(json!({"c03_trivia": {"generated": n}}));
     sink.merge(crate::semi::run(tier, seed));
+    sink.merge(crate::semi::run_hang(tier, seed));
+    sink.merge(crate::semi::run_fieldkey(tier, seed));
     sink
 }
